@@ -14,10 +14,19 @@ FILES = ["crates/parol_runtime/src/parser/parser_types.rs", "crates/parol_runtim
 BAD = ("panic", "other:", "internal", "fuel-exhausted", "bad-op")
 
 
+_seen = set()
+
+
 def oracle_req(case, reply):
     w = case.split()
     if w[0] == "ll":
-        return "ll-tables-ok " + " ".join(w[1:4])
+        key = " ".join(w[1:4])
+        reqs = ["ll-tables-ok " + key]
+        if key not in _seen:
+            # hypothesis of ll_terminates_bound (no left recursion, certificate verified per production)
+            _seen.add(key)
+            reqs.append("ll-term-ok " + key)
+        return reqs
     if w[0] == "lr" and len(w) >= 14:
         # hypothesis of lr_no_internal, evaluated on the real table
         return "lr-table-complete " + " ".join(w[1:4]) + " " + w[13]
@@ -125,7 +134,7 @@ SPEC = {
     "prop": "prun",
     "gen_extra": ["junk"],
     "mod": "ParolModel.Props.C19",
-    "more_mods": ["ParolModel.Props.C19b"],
+    "more_mods": ["ParolModel.Props.C19b", "ParolModel.Props.C19c", "ParolModel.Props.C19d"],
     "files": FILES,
     "oracle_req": oracle_req,
     "nontrivial": nontrivial,
@@ -137,17 +146,18 @@ SPEC = {
             "cyclic LALR(1) grammars (coverage.cyclic_grammar_runs)",
     "assumptions": [
         "ll_no_internal / lr_no_internal are about the models `llRun` / `lrRun` (ties of C01 / C03); their hypotheses, the checkers tablesInRangeB and lrTableComplete, are evaluated by Lean on every real LL / LALR(1) table explored",
-        "termination (LL: LLTerminates, LR: finding F24 shows it is false for cyclic grammars) and the recovery machinery are NOT proved; they are explored only (catch_unwind, watchdog)",
+        "LL termination is a theorem about the model under tablesSoundB and noLeftRecB (both evaluated on every real table); the step bound is about loop iterations of llLoop, real time is not modelled",
+        "LR termination (finding F24 shows it is false for cyclic grammars) and the recovery machinery are NOT proved; they are explored only (catch_unwind, watchdog)",
         "stack exhaustion, allocation failure and real time are runtime behaviour the model cannot exhibit",
     ],
 }
 
 CLAIM = {
     "category": "proof",
-    "text": "Theorem ll_no_internal: for every LL table set accepted by the verified checker tablesInRangeB (start, left-hand sides, non-terminals and predictable productions in range; no end-of-production marker or T(0) inside a right-hand side; sorted automata; an accepting start state has no transitions) and EVERY input and option record, the model of LLKParser::parse_into never reaches an internal outcome — no index out of range, no parse-tree-stack underflow in process_item_stack (stack discipline invariant StackOK), no failing debug assertion in eval. The checker is evaluated on every real table. Theorem lr_no_internal (Props/C19b): the same for the LR parser model under the verified checker lrTableComplete (lrTableValid + all shift/goto targets in range + a goto on the left-hand side exists wherever a reduction can land), also evaluated on every real LALR(1) table. PARTIAL: termination and recovery are not theorems; they are explored — both real parsers on garbled inputs with recovery on and off under catch_unwind (no panic, no internal/data/lexer error), and a per-process watchdog on cyclic LALR(1) grammars.",
+    "text": "Theorem ll_no_internal: for every LL table set accepted by the verified checker tablesInRangeB (start, left-hand sides, non-terminals and predictable productions in range; no end-of-production marker or T(0) inside a right-hand side; sorted automata; an accepting start state has no transitions) and EVERY input and option record, the model of LLKParser::parse_into never reaches an internal outcome — no index out of range, no parse-tree-stack underflow in process_item_stack (stack discipline invariant StackOK), no failing debug assertion in eval. The checker is evaluated on every real table. Theorem lr_no_internal (Props/C19b): the same for the LR parser model under the verified checker lrTableComplete (lrTableValid + all shift/goto targets in range + a goto on the left-hand side exists wherever a reduction can land), also evaluated on every real LALR(1) table. Theorem ll_terminates_bound (Props/C19c): for LL tables passing tablesSoundB and the verified certificate checker noLeftRecB (a nullable-closed set and weights w[lhs] >= 2 + weight of the nullable prefix and first non-nullable symbol of every right-hand side — exists iff there is no left recursion, also through nullable prefixes) the parser model terminates within llFuelBound T n = M*W*(n+1)+M+2 loop iterations on EVERY input of n tokens (potential argument); the checker is evaluated on every real LL table; exTLeftRec_not_terminates shows the hypothesis is needed; par_parsers_terminate (Props/C19d) evaluates it in the kernel on parol's own two PAR parser tables. PARTIAL: LR termination (false in general: F24) and recovery are not theorems; they are explored — both real parsers on garbled inputs with recovery on and off under catch_unwind (no panic, no internal/data/lexer error), and a per-process watchdog on cyclic LALR(1) grammars.",
     "design_ref": "DESIGN.md §6 C19",
-    "note": "Partial claim: proofs for LL and LR index/stack safety, not for termination. Known finding F24 (LR parser does not terminate on cyclic grammars accepted with resolved conflicts) is reproduced by the watchdog and reported as KNOWN-FINDING. Trusted: Lean kernel; faithfulness of the model as observed; harness, watchdog limits (4 s, 3 GB).",
-    "technique": "Lean 4 proof (LL and LR index safety) over hand-written model + differential correspondence check on garbled inputs + watchdog exploration",
+    "note": "Partial claim: proofs for LL and LR index/stack safety and LL termination, not for LR termination. Known finding F24 (LR parser does not terminate on cyclic grammars accepted with resolved conflicts) is reproduced by the watchdog and reported as KNOWN-FINDING. Trusted: Lean kernel; faithfulness of the model as observed; harness, watchdog limits (4 s, 3 GB).",
+    "technique": "Lean 4 proof (LL and LR index safety, LL termination with explicit bound) over hand-written model + differential correspondence check on garbled inputs + watchdog exploration",
 }
 
 
